@@ -211,6 +211,15 @@ def trySerializeRecord (v : Val) (k : RecordKind) : List Nat := headerBytes k ++
 def tryDeserializeRecord (bs : List Nat) : Option Val :=
   if bs.length > headerSize then (decode (bs.drop headerSize)).map (·.1) else none
 
+/-! ## hex text form of a register address (carried in user input; `RegisterAddress::from_hex`) -/
+
+def isHexChar (c : Nat) : Bool := (48 ≤ c && c ≤ 57) || (97 ≤ c && c ≤ 102) || (65 ≤ c && c ≤ 70)
+
+/-- `RegisterAddress::from_hex` up to the validity of the 48 key bytes (opaque here): the text must be hex of even
+length decoding to exactly `XOR_NAME_LEN + PK_SIZE = 80` bytes; everything else is `Err(HexDeserializeFailed)`. -/
+def registerHexShapeOk (text : List Nat) : Bool :=
+  text.all isHexChar && text.length % 2 == 0 && text.length / 2 == 80
+
 /-! ## chunks -/
 
 structure Chunk where
